@@ -500,6 +500,7 @@ func (s *persistentHybridSearch) Execute() ([]HybridSearchResult, error) {
 
 	// Search memtables (newest first)
 	memtables := s.storage.memtableQueue.list()
+	verifHook("search.listed.mem", s, len(memtables))
 	for i := len(memtables) - 1; i >= 0; i-- {
 		mt := memtables[i]
 
@@ -544,6 +545,7 @@ func (s *persistentHybridSearch) Execute() ([]HybridSearchResult, error) {
 
 	// Search segments concurrently
 	segments := s.storage.segmentManager.list()
+	verifHook("search.listed.seg", s, len(segments))
 	if len(segments) > 0 {
 		var wg sync.WaitGroup
 		resultsChan := make(chan []HybridSearchResult, len(segments))
@@ -554,6 +556,8 @@ func (s *persistentHybridSearch) Execute() ([]HybridSearchResult, error) {
 				defer wg.Done()
 
 				// Load segment index
+				verifHook("search.seg.begin", s, segment.id)
+				defer verifHook("search.seg.end", s, segment.id)
 				idx, err := segment.getIndex(
 					s.storage.config.VectorIndexTemplate,
 					s.storage.config.TextIndexTemplate,
@@ -636,6 +640,7 @@ func (s *PersistentHybridIndex) maybeScheduleFlush() {
 		// Non-blocking send to flush channel
 		select {
 		case s.flushChan <- struct{}{}:
+			verifHook("flush.requested")
 		default:
 			// Flush already scheduled
 		}
@@ -662,6 +667,7 @@ func (s *PersistentHybridIndex) Flush() error {
 func (s *PersistentHybridIndex) flushMemtables() error {
 	// Get frozen memtables
 	frozen := s.memtableQueue.listFrozen()
+	verifHook("flush.picked", len(frozen))
 	if len(frozen) == 0 {
 		return nil
 	}
@@ -673,6 +679,7 @@ func (s *PersistentHybridIndex) flushMemtables() error {
 
 		// Remove from queue
 		s.memtableQueue.remove(mt)
+		verifHook("flush.dropped")
 	}
 
 	return nil
@@ -688,6 +695,7 @@ func (s *PersistentHybridIndex) flushMemtable(mt *memtable) error {
 
 	// Generate segment ID and paths
 	segmentID := s.provider.nextSegmentID()
+	verifHook("flush.id", segmentID)
 	hybridPath, vectorPath, textPath, metadataPath := s.provider.segmentPaths(segmentID)
 
 	// Create compressed writers
@@ -696,6 +704,7 @@ func (s *PersistentHybridIndex) flushMemtable(mt *memtable) error {
 		return fmt.Errorf("failed to create hybrid file: %w", err)
 	}
 	defer hybridFile.Close()
+	verifHook("flush.create", segmentID, "hybrid")
 
 	hybridGz := gzip.NewWriter(hybridFile)
 	defer hybridGz.Close()
@@ -710,6 +719,7 @@ func (s *PersistentHybridIndex) flushMemtable(mt *memtable) error {
 			return fmt.Errorf("failed to create vector file: %w", err)
 		}
 		defer vectorFile.Close()
+		verifHook("flush.create", segmentID, "vector")
 
 		vectorGz = gzip.NewWriter(vectorFile)
 		defer vectorGz.Close()
@@ -722,6 +732,7 @@ func (s *PersistentHybridIndex) flushMemtable(mt *memtable) error {
 			return fmt.Errorf("failed to create text file: %w", err)
 		}
 		defer textFile.Close()
+		verifHook("flush.create", segmentID, "text")
 
 		textGz = gzip.NewWriter(textFile)
 		defer textGz.Close()
@@ -734,6 +745,7 @@ func (s *PersistentHybridIndex) flushMemtable(mt *memtable) error {
 			return fmt.Errorf("failed to create metadata file: %w", err)
 		}
 		defer metadataFile.Close()
+		verifHook("flush.create", segmentID, "metadata")
 
 		metadataGz = gzip.NewWriter(metadataFile)
 		defer metadataGz.Close()
@@ -755,17 +767,23 @@ func (s *PersistentHybridIndex) flushMemtable(mt *memtable) error {
 		return fmt.Errorf("failed to write index: %w", err)
 	}
 
+	verifHook("flush.written", segmentID)
+
 	// Close gzip writers to ensure all data is flushed
 	if vectorGz != nil {
 		vectorGz.Close()
+		verifHook("flush.close", segmentID, "vector")
 	}
 	if textGz != nil {
 		textGz.Close()
+		verifHook("flush.close", segmentID, "text")
 	}
 	if metadataGz != nil {
 		metadataGz.Close()
+		verifHook("flush.close", segmentID, "metadata")
 	}
 	hybridGz.Close()
+	verifHook("flush.close", segmentID, "hybrid")
 
 	// Get file sizes
 	var totalSize int64
@@ -794,6 +812,7 @@ func (s *PersistentHybridIndex) flushMemtable(mt *memtable) error {
 
 	// Add to segment manager
 	s.segmentManager.add(segment)
+	verifHook("flush.registered", segmentID)
 
 	return nil
 }
@@ -805,11 +824,14 @@ func (s *PersistentHybridIndex) flushWorker() {
 	for {
 		select {
 		case <-s.flushChan:
+			verifHook("bg.flush.begin")
 			if err := s.flushMemtables(); err != nil {
 				// Log error but continue
 				fmt.Printf("flush error: %v\n", err)
 			}
+			verifHook("bg.flush.end")
 		case <-s.closeChan:
+			verifHook("bg.flush.closing")
 			// Final flush before closing
 			s.flushMemtables()
 			return
@@ -832,9 +854,11 @@ func (s *PersistentHybridIndex) compactionWorker() {
 				fmt.Printf("compaction error: %v\n", err)
 			}
 		case <-s.compactionChan:
+			verifHook("bg.compact.begin")
 			if err := s.maybeCompact(); err != nil {
 				fmt.Printf("compaction error: %v\n", err)
 			}
+			verifHook("bg.compact.end")
 		case <-s.closeChan:
 			return
 		}
@@ -854,12 +878,14 @@ func (s *PersistentHybridIndex) Close() error {
 	}
 	s.closed = true
 	s.mu.Unlock()
+	verifHook("close.marked")
 
 	// Signal background workers to stop
 	close(s.closeChan)
 
 	// Wait for workers to finish
 	s.wg.Wait()
+	verifHook("close.workers.done")
 
 	// Close provider (releases lock)
 	if err := s.provider.close(); err != nil {
